@@ -1,5 +1,5 @@
 """C04 — Every schedule terminates with the same result; no wake-up is lost."""
-import json, time
+import collections, json, time
 from . import common
 
 PID = "C04"
@@ -39,30 +39,52 @@ ERR_QUERIES = {
 }
 SETUP_AB = ["create temp table a (x int)", "insert into a values (cast('1' as int)),(cast('2' as int)),(cast('3' as int))",
             "create temp table b (y int)", "insert into b values (cast('1' as int)),(cast('3' as int))"]
-# LIMIT (or uncorrelated EXISTS, planned as LIMIT 1) above a barrier: the limit answers Exhausted, the
-# ExecutionStack abandons everything upstream.  name -> (setup, sql, expected row count, class)
-#   class "drain_join": join type with a drain phase (LEFT; FULL is not plannable) below the limit
-#   class "upstream_pipeline": other pipelines feed the limited one (UNION ALL, materialized CTE)
-#   class "ok": must simply work
+# LIMIT (or uncorrelated EXISTS, planned as LIMIT 1) above a barrier: the limit answers Exhausted and the
+# ExecutionStack abandons everything upstream (since commit 131551599 with an AbandonOperator finalize).
+#   name -> (setup, sql, expected row count, class)
+#   class "ok": must terminate on every schedule with `count` rows, each a row of the un-limited query
+#   class "nested_limit": TWO exhausting operators above a join with a drain phase (known finding)
+#   class "upstream_pipeline": other pipelines feed the limited one (UNION ALL, materialized CTE; known finding)
 LIMIT_QUERIES = {
-    "lim_left_small": (SETUP_AB, "select 1 from b left join a a3 on a3.x = b.y limit 1", 1, "drain_join"),
-    "exists_left_small": (SETUP_AB, "select exists (select 1 from b left join a a3 on a3.x = b.y)", 1, "drain_join"),
-    "lim_left": (SETUP, "select t2.b from t2 left join t1 on t2.b = t1.a limit 5", 5, "drain_join"),
+    "lim_left_small": (SETUP_AB, "select 1 from b left join a a3 on a3.x = b.y limit 1", 1, "ok"),
+    "exists_left_small": (SETUP_AB, "select exists (select 1 from b left join a a3 on a3.x = b.y)", 1, "ok"),
+    "lim_left": (SETUP, "select t2.b from t2 left join t1 on t2.b = t1.a limit 5", 5, "ok"),
+    "lim_left_big": (SETUP, "select t1.a, t2.b from t1 left join t2 on t2.b = t1.a limit 4100", 4100, "ok"),
     "lim_nlj_left": (SETUP + ["set enable_hash_joins to false"],
-                     "select t2.b from t2 left join (select * from t1 where a < 300) u on t2.b = u.a limit 5", 5, "drain_join"),
-    "lim_union_all": (SETUP, "select a from t1 union all select b from t2 limit 5", 5, "upstream_pipeline"),
-    "lim_materialized": (SETUP, "with c as materialized (select a, k from t1 where g = 1) select * from c union all select * from c limit 5", 5, "upstream_pipeline"),
-    "lim_inner": (SETUP, "select t2.b from t2 join t1 on t2.b = t1.a limit 5", 5, "ok"),
-    "lim_right": (SETUP, "select t2.b from t2 right join t1 on t2.b = t1.a limit 5", 5, "ok"),
+                     "select t2.b from t2 left join (select * from t1 where a < 300) u on t2.b = u.a limit 5", 5, "ok"),
     "lim_semi": (SETUP, "select a from t1 where k in (select k from t2 where b < 500) limit 5", 5, "ok"),
     "lim_anti": (SETUP, "select a from t1 where k not in (select k from t2 where b < 500) limit 5", 5, "ok"),
+    "lim_mark": (SETUP, "select a, k in (select k from t2 where b < 500) from t1 limit 5", 5, "ok"),
+    "lim_agg_then_left": (SETUP, "select x.k, x.c, t2.b from (select k, count(*) c from t1 group by k) x left join t2 on x.k = t2.b limit 5", 5, "ok"),
+    "lim_left_then_left": (SETUP, "select t2.b, t1.a, z.b from t2 left join t1 on t2.b = t1.a left join t2 z on z.b = t1.a + 1 limit 5", 5, "ok"),
+    "lim_left_then_inner": (SETUP, "select t2.b, z.k from t2 left join t1 on t2.b = t1.a join t2 z on z.b = t2.b limit 5", 5, "ok"),
+    "lim_left_filter": (SETUP, "select t2.b from t2 left join t1 on t2.b = t1.a where t2.b % 3 = 0 limit 5", 5, "ok"),
+    "lim_left_offset": (SETUP, "select t2.b from t2 left join t1 on t2.b = t1.a limit 5 offset 7", 5, "ok"),
+    "lim_sort_left": (SETUP, "select * from (select t2.b from t2 left join t1 on t2.b = t1.a order by t2.b desc) limit 5", 5, "ok"),
+    "lim_inner": (SETUP, "select t2.b from t2 join t1 on t2.b = t1.a limit 5", 5, "ok"),
+    "lim_right": (SETUP, "select t2.b from t2 right join t1 on t2.b = t1.a limit 5", 5, "ok"),
     "lim_group_by": (SETUP, "select g, count(*) from t1 group by g limit 2", 2, "ok"),
     "lim_distinct_agg": (SETUP, "select g, count(distinct k) from t1 group by g limit 2", 2, "ok"),
     "lim_sort": (SETUP, "select * from (select a from t1 order by k, a) limit 5", 5, "ok"),
     "lim_union_distinct": (SETUP, "select k from t1 union select k from t2 limit 5", 5, "ok"),
     "lim_scan": (SETUP, "select a from t1 limit 5", 5, "ok"),
     "exists_group_by": (SETUP, "select exists (select g from t1 group by g)", 1, "ok"),
+    "lim_lim_left": (SETUP, "select * from (select t2.b from t2 left join t1 on t2.b = t1.a limit 5) limit 3", 3, "nested_limit"),
+    "exists_lim_left": (SETUP, "select exists (select t2.b from t2 left join t1 on t2.b = t1.a limit 5)", 1, "nested_limit"),
+    "lim_union_all": (SETUP, "select a from t1 union all select b from t2 limit 5", 5, "upstream_pipeline"),
+    "lim_materialized": (SETUP, "with c as materialized (select a, k from t1 where g = 1) select * from c union all select * from c limit 5", 5, "upstream_pipeline"),
 }
+
+
+def nolimit_sql(sql):
+    """the un-limited query whose rows a LIMIT result must be drawn from (None if not of that shape)"""
+    import re
+    m = re.match(r"^(select .*) limit \d+( offset \d+)?$", sql)
+    if not m or sql.startswith("select * from (") or sql.startswith("select exists"):
+        return None
+    return m.group(1)
+
+
 ERR_TEXT = "Failed to parse 'x' into Int32"
 PARTS = [1, 2, 3, 4, 8]
 KINDS = ["fifo", "lifo", "random", "random", "starve_last", "starve_first"]
@@ -166,8 +188,11 @@ def stage_det(ctx, rng, gbin):
                                   cancel_after=rng.below(12)))
     # LIMIT / EXISTS above a barrier
     for name, (setup, sql, nrows, cls) in LIMIT_QUERIES.items():
-        for parts in [1, 2, 3] + ([] if quick else [4, 8]):
-            for j in range(1 if quick else 6):
+        full = nolimit_sql(sql) if cls == "ok" else None
+        if full:
+            cases.append(det_case("full-" + name, name, setup, full, 1, {"kind": "fifo", "seed": 1}, _full=True))
+        for parts in [1, 2, 3, 4] + ([] if quick else [8]):
+            for j in range(1 if quick or parts == 1 else 6):
                 cases.append(det_case("%s-p%d-%d" % (name, parts, j), name, setup, sql, parts,
                                       sched(rng, None if j or parts > 1 else "fifo"), _limit=(nrows, cls)))
     # systematic enumeration of every schedule prefix for small partition counts
@@ -180,7 +205,7 @@ def stage_det(ctx, rng, gbin):
                                   enumerate={"max_runs": 120 if quick else 3000, "depth": 7 if quick else 10}))
     send = [{k: v for k, v in c.items() if not k.startswith("_")} for c in cases]
     real = common.run_harness(gbin, "det", send, timeout=3000)
-    base, viol, known, nruns, distinct, poll_err = {}, [], [], 0, set(), 0
+    base, viol, known, nruns, distinct, poll_err, full_rows = {}, [], [], 0, set(), 0, {}
     sample = None
     for c, r in zip(cases, real):
         name = c["_name"]
@@ -216,15 +241,27 @@ def stage_det(ctx, rng, gbin):
         if r.get("polls_after_error"):
             known.append(("errored-task-repoll", dict(replay, polls_after_error=r["polls_after_error"],
                                                       after_error_results=r.get("after_error_results"))))
+        if c.get("_full"):
+            full_rows[name] = collections.Counter(json.dumps(x) for x in (res or {}).get("rows", [])) if out[0] == "rows" else None
+            if out[0] != "rows":
+                viol.append(("un-limited baseline query failed", dict(replay, outcome=out[:2])))
+            continue
         if "_limit" in c:
             nrows, cls = c["_limit"]
             ok_rows = out[0] == "rows" and out[1] == nrows
-            if out[0] == "hang" and cls == "drain_join" and c["partitions"] >= 2:
-                known.append(("limit-over-drain-join-hang", dict(replay, outcome=out[:2], steps=r.get("steps"))))
-            elif ok_rows and r.get("unfinished") and cls == "upstream_pipeline" and c["partitions"] >= 1:
+            if ok_rows and full_rows.get(name):
+                got = collections.Counter(json.dumps(x) for x in res["rows"])
+                extra = got - full_rows[name]
+                if extra:
+                    viol.append(("LIMIT above a barrier returned rows that the un-limited query does not have",
+                                 dict(replay, rows=list(extra)[:5])))
+                    continue
+            if out[0] == "hang" and cls == "nested_limit" and c["partitions"] >= 2:
+                known.append(("nested-limit-over-drain-join-hang", dict(replay, outcome=out[:2], steps=r.get("steps"))))
+            elif ok_rows and r.get("unfinished") and cls == "upstream_pipeline":
                 known.append(("limit-leaves-upstream-tasks-parked", dict(replay, unfinished=r["unfinished"])))
             elif not ok_rows:
-                viol.append(("LIMIT above a barrier: %s" % out[0], dict(replay, outcome=out[:2], want_rows=nrows)))
+                viol.append(("LIMIT above a barrier: %s" % out[0], dict(replay, outcome=out[:2], want_rows=nrows, steps=r.get("steps"))))
             elif r.get("unfinished"):
                 viol.append(("LIMIT above a barrier: tasks left parked for ever after the stream ended", dict(replay, unfinished=r["unfinished"])))
             continue
@@ -383,3 +420,47 @@ def run(ctx):
     out["level"] = "partial"
     out["wall"] = time.time() - t0
     return out
+
+
+def replay(ctx, payload):
+    """./check C04 --replay file: re-run the recorded case on the current tree; exit 1 if it still fails."""
+    rp = payload.get("replay", payload)
+    gbin, _ = common.build_harness(bin="gv_sched")
+    case = rp.get("case")
+    if not case:
+        print("replay has no engine input (proof / correspondence breakage): %s" % payload.get("what"))
+        return 2
+    if "script" in case:
+        gmodel = common.build_ocaml("sched")
+        r = common.run_harness(gbin, "stack", [case])[0]
+        m = common.run_model(gmodel, "stack", ["case %d %s" % (case["nops"], case["script"])])[0]
+        got = "new_panic" if r.get("new_panic") else ",".join(r.get("steps", []))
+        print("real :", got)
+        print("model:", m)
+        return 1 if got != m else 0
+    if "task_trace" in rp:
+        gmodel = common.build_ocaml("sched")
+        v = common.run_model(gmodel, "tasklog", ["trace " + " ".join(rp["task_trace"])])[0]
+        print("model verdict on the recorded trace:", v)
+        return 0 if v.startswith("OK") and "after_done=0" in v else 1
+    sub = "tasklog" if "threads" in case else "det"
+    r = common.run_harness(gbin, sub, [dict(case, log=True)], timeout=600)[0]
+    if sub == "tasklog":
+        print(json.dumps(r)[:2000])
+        return 1 if "tasks" not in r else 0
+    res = r.get("result", r.get("enum"))
+    name = rp.get("query_kind", "")
+    out = canon(name, res) if "result" in r else ("enum", json.dumps(res)[:300])
+    print("outcome:", out[:2], "steps:", r.get("steps"), "unfinished:", r.get("unfinished"))
+    if r.get("log"):
+        print("schedule log:", r["log"][:1500])
+    bad = out[0] in ("hang", "panic", "missing") or "abort" in r or "timeout" in r
+    if "want_rows" in rp and not (out[0] == "rows" and out[1] == rp["want_rows"]):
+        bad = True
+    if name in ERR_QUERIES and out[0] != "err":
+        bad = True
+    if r.get("unfinished") and out[0] == "rows":
+        bad = True
+    if "enum" in r and (res.get("n_hangs") or res.get("n_unfinished") or res.get("distinct_results") != 1):
+        bad = True
+    return 1 if bad else 0
